@@ -41,7 +41,7 @@ CTX_VIEW = (('k0', 'a0'), ('k1', 'a1'), ('_p', 'x'))
 
 
 def expected_ctx(tname: str, label: int, ctx: dict):
-    if tname == 'TF':
+    if tname in ('TF', 'TH'):
         keep = f'k{label % 2}'
         ctx = {k: v for k, v in ctx.items() if k == keep or k.startswith('_')}
     elif tname == 'TG':
@@ -71,7 +71,7 @@ def bases(tier):
     out = []
     for n in range(1, nmax + 1):
         for shape in all_shapes(n):
-            for types in itertools.product(('TA', 'TF', 'TG'), repeat=n):
+            for types in itertools.product(('TA', 'TF', 'TG', 'TH') if n < 3 else ('TF', 'TG', 'TH'), repeat=n):
                 spec = mk_spec(shape, types=types)
                 req = tuple((i, False) for i in range(n))
                 for ctx in (CTX_VIEW, CTX_A, None):
@@ -151,7 +151,7 @@ def real_dump(backend: str, mw: str, dag: int, storage_dir: str):
     silence_labtech()
     U.PARENT_MARK = 'mutated-by-caller'
     shapes = [((), ()), ((), (0,), (0, 1)), ((), (), (0,), (1, 2))]
-    types = [('TA', 'TG'), ('TF', 'TG', 'TF'), ('TA', 'TG', 'TF', 'TF')]
+    types = [('TH', 'TG'), ('TF', 'TG', 'TH'), ('TA', 'TG', 'TF', 'TH')]
     spec = mk_spec(shapes[dag], types=types[dag])
     from ..spec import Built
     built = Built(spec)
@@ -218,6 +218,81 @@ def real_sequence_case(order: str):
         shutil.rmtree(tmp, ignore_errors=True)
 
 
+THREAD_CTX = {'A': (('k0', 'A0'), ('k1', 'A1')), 'B': (('k0', 'B0'), ('k1', 'B1'))}
+
+
+def real_threads_dump(backend: str, storage_root: str):
+    """Two Labs with different contexts whose run_tasks calls overlap in time (two threads of
+    the caller); the tasks stay inside run() until both runs have workers executing."""
+    silence_labtech()
+    import time
+    from ..spec import Built
+    os.makedirs(storage_root, exist_ok=True)
+    bd = os.environ['VERIF_BARRIER_DIR']
+    wf = os.environ['VERIF_WORLD_FILE']
+    results = {}
+
+    def run(name, labels):
+        # the third task depends on the first: it is started only after the other Lab's runner exists
+        spec = mk_spec(((), (), (0,)), types=('TA', 'TG', 'TG'), labels=labels)
+        lab = labtech.Lab(storage=os.path.join(storage_root, name), runner_backend=backend, max_workers=2, notebook=False, context=dict(THREAD_CTX[name]))
+        try:
+            results[name] = len(lab.run_tasks(list(Built(spec).canon), disable_progress=True, disable_top=True))
+        except BaseException as e:  # noqa
+            results[name] = f'{type(e).__name__}: {e}'
+    ths = [threading.Thread(target=run, args=('A', (0, 1, 2))), threading.Thread(target=run, args=('B', (10, 11, 12)))]
+    for lb in (2, 12):
+        open(os.path.join(bd, f'go_{lb}'), 'w').close()     # the dependent tasks never wait
+    ths[0].start()
+    # wait until A's workers are inside run(), then start B, then release everything once B's are too
+    def blocked():
+        return [json.loads(l)[3][1] for l in open(wf) if l.strip() and json.loads(l)[2] == 'blocked']
+    t0 = time.monotonic()
+    while time.monotonic() - t0 < 30 and len([x for x in blocked() if x < 10]) < 2:
+        time.sleep(0.01)
+    ths[1].start()
+    while time.monotonic() - t0 < 60 and len([x for x in blocked() if x >= 10]) < 2 and ths[1].is_alive():
+        time.sleep(0.01)
+    for lb in (0, 1, 10, 11):
+        open(os.path.join(bd, f'go_{lb}'), 'w').close()
+    for th in ths:
+        th.join(120)
+    print(json.dumps({'results': results, 'overlapped': len(blocked())}))
+
+
+def real_threads_case(backend: str):
+    tmp = tempfile.mkdtemp(prefix='c16t_')
+    out = []
+    try:
+        wf = os.path.join(tmp, 'world.log')
+        open(wf, 'w').close()
+        bd = os.path.join(tmp, 'barrier')
+        os.makedirs(bd)
+        rc, so, se = run_isolated([sys.executable, '-m', 'verif_lt.props.c16', '--threads', backend, os.path.join(tmp, 'st')],
+                                  env=py_env(1, VERIF_WORLD_FILE=wf, VERIF_RECORD_ENV=1, VERIF_BARRIER_DIR=bd), timeout=300)
+        d = f'two Labs ({backend} backend) with different contexts whose run_tasks calls overlap (two threads of the caller)'
+        if rc != 0:
+            return [('threads-run-failed', f'{d}: exited {rc}: {se[-500:]}', 1)], 0
+        o = json.loads(so.strip().splitlines()[-1])
+        for name, r in o['results'].items():
+            if r != 3:
+                out.append((f'{backend}:overlapping-run-failed', f'{d}: Lab {name} returned {r!r} instead of 3 results', 1))
+        envs = [json.loads(l) for l in open(wf) if l.strip()]
+        n = 0
+        for e in envs:
+            if e[2] != 'env':
+                continue
+            n += 1
+            k = tuple(e[3])
+            name = 'A' if k[1] < 10 else 'B'
+            want = [list(x) for x in expected_ctx(k[0], k[1], dict(THREAD_CTX[name]))]
+            if e[9] != want:
+                out.append((f'{backend}:wrong-context', f'{d}: task {k} of Lab {name} ran with context {e[9]}, its Lab\'s filtered context is {want}', 1))
+        return out, n
+    finally:
+        shutil.rmtree(tmp, ignore_errors=True)
+
+
 def real_case(args):
     backend, mw, dag = args
     tmp = tempfile.mkdtemp(prefix='c16r_')
@@ -276,6 +351,9 @@ def _work(item):
     if kind == 'seq':
         out, n = real_sequence_case(item[1])
         return 'real', n, out
+    if kind == 'threads':
+        out, n = real_threads_case(item[1])
+        return 'real', n, out
     out, n = real_case(item[1])
     return 'real', n, out
 
@@ -299,7 +377,7 @@ def run(tier: str, seed: int) -> Result:
     dags = (0, 1) if tier == 'quick' else (0, 1, 2)
     reals = [(b, mw, dg) for b in ('serial', 'fork', 'spawn') for mw in mws for dg in dags]
     seqs = ['fork-spawn-fork', 'spawn-fork-serial'] if tier == 'quick' else ['fork-spawn-fork', 'spawn-fork-serial', 'serial-spawn-spawn-fork', 'fork-fork-spawn']
-    work = [('real', r) for r in reals] + [('seq', sq) for sq in seqs] + work
+    work = [('real', r) for r in reals] + [('seq', sq) for sq in seqs] + [('threads', 'fork')] + ([('threads', 'spawn')] if tier != 'quick' else []) + work
     viols = []
     n_ctx = n_bytes = n_real = 0
     for kind, n, res in pmap(_work, work):
@@ -317,7 +395,7 @@ def run(tier: str, seed: int) -> Result:
         'rule': ('context: all DAG shapes n<=3 x per-node type {identity filter, per-parameter filter} x 3 contexts x {cold, one node pre-cached} on the coordinator seam '
                  '(default schedule + every single deviation), the real SerialRunner and the real fork/spawn ProcessRunner over the virtual OS (which also records the start '
                  'method requested for every worker); stored bytes: every shape n<=3 x 3 types run under two different contexts with a fixed clock; process model: '
-                 f'{len(reals)} real runs (serial/fork/spawn x max_workers x DAG) and {len(seqs)} sequences of different backends in one caller process reporting pid, ppid, thread, start method and a parent-mutated module global from inside run(); '
+                 f'{len(reals)} real runs (serial/fork/spawn x max_workers x DAG) and {len(seqs)} sequences of different backends in one caller process, and two Labs whose run_tasks calls overlap in two threads of the caller, reporting pid, ppid, thread, start method and a parent-mutated module global from inside run(); '
                  'distinct_nontrivial = configurations'),
         'samples': [bs[0].brief(), {'real_run': list(reals[0])}, {'real_run': list(reals[-1])}],
         'context_executions': n_ctx, 'stored_bytes_cases': n_bytes, 'real_task_environment_records': n_real,
@@ -340,5 +418,7 @@ def replay(payload) -> int:
 if __name__ == '__main__':
     if len(sys.argv) >= 6 and sys.argv[1] == '--real':
         real_dump(sys.argv[2], sys.argv[3], int(sys.argv[4]), sys.argv[5])
+    elif len(sys.argv) >= 4 and sys.argv[1] == '--threads':
+        real_threads_dump(sys.argv[2], sys.argv[3])
     elif len(sys.argv) >= 4 and sys.argv[1] == '--sequence':
         real_sequence_dump(sys.argv[2], sys.argv[3])
